@@ -256,6 +256,8 @@ func checkC09(c *Ctx) {
 	checkClientTableDiscipline(c, "R10")
 	c.Rule("R11", "draining keeps established connections: the drain latch is read by the binding and accepting code only, never by code that runs per accepted connection")
 	checkDrainKeepsAccepted(c, "R11")
+	c.Rule("R12", "a goroutine started in a loop gets that iteration's values (shared with C05.R7): stopping the components of a table concurrently must not capture the loop variable - all goroutines would stop the last one and the others would never be stopped")
+	checkLoopGoroutineCapture(c, "R12")
 }
 
 func checkListener(c *Ctx, ce *chanEngine) {
@@ -1049,7 +1051,18 @@ func checkJoinBeforeRelease(c *Ctx, rule string) {
 				return
 			}
 			if _, isGo := x.(*ssa.Go); isGo {
-				return
+				// a goroutine the function waits for (it calls WaitGroup.Wait) has run when the function returns
+				waits := false
+				eachInstr(f, func(_ *ssa.BasicBlock, _ int, y ssa.Instruction) {
+					if cc := callOf(y); cc != nil {
+						if h := calleeFn(cc); h != nil && h.String() == "(*sync.WaitGroup).Wait" {
+							waits = true
+						}
+					}
+				})
+				if !waits {
+					return
+				}
 			}
 			if _, isB := ci.Common().Value.(*ssa.Builtin); isB {
 				return
@@ -1246,6 +1259,98 @@ func checkJoinBeforeRelease(c *Ctx, rule string) {
 					// the goroutines that must finish before d is closed: the closer's own code, and the goroutines it
 					// spawns and waits for through a WaitGroup
 					roots := closersOf(d)
+					// what the closer itself closes before it waits for its own goroutines releases those goroutines
+					for _, r := range roots {
+						var waits []ssa.Instruction
+						eachInstr(r, func(_ *ssa.BasicBlock, _ int, x ssa.Instruction) {
+							if cc := callOf(x); cc != nil {
+								if h := calleeFn(cc); h != nil && h.String() == "(*sync.WaitGroup).Wait" {
+									waits = append(waits, x)
+								}
+							}
+						})
+						if len(waits) == 0 {
+							continue
+						}
+						hdrs := loopHeaders(r)
+						// x runs before w on every path, or for every element of a loop that precedes w
+						beforeWait := func(x, w ssa.Instruction) bool {
+							if instrDominates(x, w) {
+								return true
+							}
+							for _, h := range hdrs {
+								if h.Dominates(x.Block()) && h.Dominates(w.Block()) && h != w.Block() {
+									// x is inside the loop: its block reaches the header again
+									inLoop := false
+									seen := map[*ssa.BasicBlock]bool{}
+									var dfs func(b *ssa.BasicBlock)
+									dfs = func(b *ssa.BasicBlock) {
+										if seen[b] || inLoop {
+											return
+										}
+										seen[b] = true
+										for _, sc := range b.Succs {
+											if sc == h {
+												inLoop = true
+												return
+											}
+											if h.Dominates(sc) {
+												dfs(sc)
+											}
+										}
+									}
+									dfs(x.Block())
+									// and w is behind the loop, not inside it
+									wInLoop := false
+									seen = map[*ssa.BasicBlock]bool{}
+									var dfs2 func(b *ssa.BasicBlock)
+									dfs2 = func(b *ssa.BasicBlock) {
+										if seen[b] || wInLoop {
+											return
+										}
+										seen[b] = true
+										for _, sc := range b.Succs {
+											if sc == h {
+												wInLoop = true
+												return
+											}
+											if h.Dominates(sc) {
+												dfs2(sc)
+											}
+										}
+									}
+									dfs2(w.Block())
+									if inLoop && !wInLoop {
+										return true
+									}
+								}
+							}
+							return false
+						}
+						eachInstr(r, func(_ *ssa.BasicBlock, _ int, x ssa.Instruction) {
+							for _, w := range waits {
+								if x == w || !beforeWait(x, w) {
+									return
+								}
+							}
+							if isBuiltin(x, "close") {
+								if fld, _ := chanFieldOf(callOf(x).Args[0]); fld != nil {
+									before[fld] = true
+								}
+							}
+							if ci, ok := x.(ssa.CallInstruction); ok {
+								if _, isGo := x.(*ssa.Go); isGo {
+									return
+								}
+								if _, isB := ci.Common().Value.(*ssa.Builtin); isB {
+									return
+								}
+								for _, h := range p.callees(ci) {
+									closedBy(h, before, 0)
+								}
+							}
+						})
+					}
 					own := map[*ssa.Function]bool{}
 					for _, r := range roots {
 						reach(r, own, 0)
